@@ -114,6 +114,18 @@ def _identity_guard(q, args, extra=()):
             raise Unsupported("temporal table among the sources (identity)")
 
 
+
+_UNNAMED = '"tbl": {"name": null, "schema": [], "alias": null}'
+
+
+def _unnamed_subquery_guard(pre, item):
+    """a call that names an un-aliased sub-query OBJECT renames every field already bound to that object; the syntax tree
+    has no object identity, so such cases are left to the other ties"""
+    if isinstance(item, (Q.QueryBuilder, Q._SetOperation)) and item.alias is None and pre is not None and \
+            _UNNAMED in json.dumps(pre.get("q")):
+        raise Unsupported("field of a not-yet-named sub-query (object identity)")
+
+
 def encode_call(q, name, args, kw):
     """(method, args, kwargs) of a real call -> JSON for `dBCall`; raises Unsupported for what the model leaves out"""
     a = list(args)
@@ -603,6 +615,8 @@ def _wrap_builder(cls, name):
         try:
             rec.call = encode_call(self, name, args, kw)
             rec.pre = d_state(self)
+            if name == "from_" and args:
+                _unnamed_subquery_guard(rec.pre, args[0])
         except Unsupported as e:
             rec.skip = str(e)[:50]
         except Exception as e:   # an object the describer cannot read is not a statement about the builder
@@ -648,6 +662,7 @@ def _wrap_opaque(cls, name):
                 raise Unsupported("same table joined again (object identity)")
             item = describe.d_src(it)
             pre = d_state(self)
+            _unnamed_subquery_guard(pre, it)
         except Unsupported as e:
             skip = str(e)[:50]
         except Exception as e:
